@@ -88,6 +88,7 @@ def execute_run(mod, seed: int, run_index: int, tier: str, values=None, keep_tap
     res["sample"] = ctx.sample
     res["sim_time"] = ctx.sim_time
     res["steps"] = ctx.steps
+    res["collected"] = ctx.collected
     if keep_tape or res["violations"]:
         res["tape"] = tape.values()
         res["tape_desc"] = tape.describe()
@@ -122,6 +123,7 @@ def _worker_chunk(mname: str, seed: int, tier: str, indices, want_digests: bool)
         "sim_time": 0.0,
         "steps": 0,
         "digests": {},
+        "collected": {},
     }
     devnull = open(os.devnull, "w")
     old_err = sys.stderr
@@ -135,6 +137,8 @@ def _worker_chunk(mname: str, seed: int, tier: str, indices, want_digests: bool)
             agg["probes"].update(r["probes"])
             agg["sim_time"] += r["sim_time"]
             agg["steps"] += r["steps"]
+            for k, v in r["collected"].items():
+                agg["collected"].setdefault(k, set()).update(v)
             if r["status"] == "inconclusive":
                 agg["inconclusive"] += 1
             elif r["status"] == "harness_error":
@@ -340,7 +344,7 @@ def run_check(prop: str, machines: list[str], tier: str, seed: int, out=sys.stdo
         per_machine[mod.NAME] = {
             "planned": n_runs, "n": 0, "fired": Counter(), "probes": Counter(), "cases": set(),
             "samples": [], "violations": [], "inconclusive": 0, "sim_time": 0.0, "steps": 0,
-            "digests": {}, "digests2": {}, "t_first": None, "t_last": None,
+            "digests": {}, "digests2": {}, "t_first": None, "t_last": None, "collected": {},
         }
         idx = list(range(n_runs))
         chunks = [idx[i : i + chunk] for i in range(0, n_runs, chunk)]
@@ -391,6 +395,8 @@ def run_check(prop: str, machines: list[str], tier: str, seed: int, out=sys.stdo
                     pm["inconclusive"] += agg["inconclusive"]
                     pm["sim_time"] += agg["sim_time"]
                     pm["steps"] += agg["steps"]
+                    for k, v in agg["collected"].items():
+                        pm["collected"].setdefault(k, set()).update(v)
                     pm["digests"].update(agg["digests"])
                 harness_errors.extend((job[0], i, e) for i, e in agg["harness_errors"])
                 submit_next()
